@@ -12,6 +12,10 @@ _C02_UNITS = [
     # layer B (maintainer): daemon-level histories on the server simulator, compared through ListPath/ListPeer/GetTable/WatchEvent
     dict(name="sim", harness="t_server", files=["sim_", "c01_", "c02_"], run="TestVerifC02Sim",
          shards=dict(quick=16, thorough=16), timeout_s=dict(quick=1800, thorough=10800)),
+    # linearizability side-check (porcupine): concurrent management clients (AddPath/DeletePath/ListPath) on a real BgpServer in REAL time
+    # (no synctest bubble: goroutine scheduling is the point), per-prefix register model; shards run with different GOMAXPROCS
+    dict(name="lin", harness="t_server", files=["sim_", "c02lin_"], run="TestVerifC02Lin", gomaxprocs=[2, 4, 8, 16],
+         shards=dict(quick=8, thorough=8), timeout_s=dict(quick=1800, thorough=10800)),
 ]
 _C02_MUST = (
     ["ops", "full_comparisons", "comparisons_after_change", "dest_checks_loc", "dest_checks_adj", "counter_checks", "adj_tableinfo_checks",
@@ -24,7 +28,12 @@ _C02_MUST = (
                                  "vpn-exact-any-rd", "vpn-longer-any-rd", "vpn-shorter-any-rd", "evpn-route-type", "whole-table")] +
     ["lookup_adj_" + k for k in ("exact", "longer", "shorter")] +
     ["adj_in_comparisons", "loc_rib_comparisons", "counter_comparisons", "gettable_comparisons", "lookup_comparisons", "watcher_comparisons",
-     "watcher_events", "ev_delete-peer", "ev_flap", "ev_reestablish", "ev_burst"]
+     "watcher_events", "ev_delete-peer", "ev_flap", "ev_reestablish", "ev_burst"] +
+    # unit "lin"
+    ["histories_linearizable", "cases_with_overlapping_writes_on_one_prefix", "ops_overlapping_another", "read_write_overlaps_same_prefix",
+     "write_overlap_add/add", "write_overlap_add/del-uuid", "op_add", "op_del-uuid", "op_del-path", "op_del-all", "op_list", "op_list-all",
+     "del_uuid_ok", "del_uuid_error_no_such_uuid", "list_value", "list_absent", "cases_with_speakers", "peer_paths_seen_in_list_replies",
+     "cases_mixed_family"]
 )
 
 PROPS["C02"] = dict(
